@@ -409,8 +409,13 @@ fn parse_at_rule(
             let st = StepToken::wrap(Token::AtKeyword(x.clone()), peek.position);
             let output_index = ss.cur_output_utf8_len();
             ss.append_token(st, input, None);
+            // (a vendor prefix does not change what the at-rule contains, e.g. `@-moz-document`)
+            let unprefixed = ["-moz-", "-webkit-", "-ms-", "-o-"]
+                .iter()
+                .find_map(|p| at_keyword.strip_prefix(p))
+                .unwrap_or(at_keyword.as_str());
             let contain_rule_list = matches!(
-                at_keyword.as_str(),
+                unprefixed,
                 "media" | "supports" | "document" | "layer" | "container" | "scope" | "starting-style"
             );
             loop {
